@@ -252,6 +252,16 @@ pub fn dispatch(f: &[&str]) -> String {
             let d: Result<lettre::address::Envelope, _> = serde_json::from_str(&js);
             format!("{}\t{}", r.map(|e| e.to().len().to_string()).unwrap_or_else(|_| "err".into()), d.map(|e| e.to().len().to_string()).unwrap_or_else(|_| "err".into()))
         }
+        "envelope.json" => {
+            // any JSON text offered to the Envelope deserializer (what FileTransport::read does with the .json file)
+            let Some(js) = utf8(unhex(f[1])) else { return "invalid-utf8".into() };
+            match std::panic::catch_unwind(|| serde_json::from_str::<lettre::address::Envelope>(&js)) {
+                Ok(Ok(e)) => format!("ok\t{}\t{}\t{}", e.to().len(), e.from().map(|a| hex(a.to_string().as_bytes())).unwrap_or_else(|| "!".into()),
+                                     e.to().iter().map(|a| hex(a.to_string().as_bytes())).collect::<Vec<_>>().join("|")),
+                Ok(Err(_)) => "err".into(),
+                Err(_) => "panic".into(),
+            }
+        }
         "envelope.headers" => {
             // Envelope::try_from(&Headers) and the message builder with To / Cc / Bcc each absent (-), an empty list (0) or k mailboxes:
             // "ok <n>" / "err", twice (headers path, builder path)
